@@ -17,103 +17,131 @@ import importlib
 import sys
 from pathlib import Path
 
-HEADER = [
-    ("G = 0", (8, 1)),
-    ("", None),
-    ("", None),
-    ("class Box:", (8, 2)),
-    ("    pass", None),
-    ("", None),
-    ("", None),
-    ("def h(x):", (8, 3)),
-    ("    y = x + 1", (9, 1)),
-    ("    return y", (9, 2)),
-    ("", None),
-    ("", None),
-    ("def g(y):", (8, 4)),
-    ("    if y:", (9, 3)),
-    ("        return y + G", (9, 4)),
-    ("    return 0", (9, 5)),
-    ("", None),
-    ("", None),
-    ("def f(a, b):", (8, 5)),
-    ("    global G", None),
+# ---- the fixed part of the module (mirror of PyMiniData.tla: ModLine, Helpers, HelperBody, ClassFields) ----
+def _inc(x, y, c):
+    return {"t": "inc", "x": x, "y": y, "c": c}
+
+
+def _if(cv, a, b):
+    return {"t": "if", "cv": cv, "a": a, "b": b}
+
+
+HELPERS = [   # (name, index i of the paths (9, i, ...), parameter, path of the def line, body)
+    ("h", 1, "x", (8, 3), [_inc("y", "x", 1), {"t": "ret", "x": "y"}]),
+    ("g", 2, "y", (8, 4), [_if("y", [{"t": "retb", "y": "y", "z": "G"}], []), {"t": "retc", "c": 0}]),
+    ("k", 3, "x", (8, 8), [_inc("y", "x", -1),
+                           _if("y", [{"t": "const", "x": "x", "c": 2}], [{"t": "const", "x": "x", "c": 1}]),
+                           {"t": "ret", "x": "x"}]),
+    ("m", 4, "y", (8, 9), [_inc("x", "y", 1),
+                           {"t": "for", "k": 2, "a": [_if("y", [_inc("x", "x", 1)], []), {"t": "dec", "x": "y"}]},
+                           {"t": "ret", "x": "x"}]),
 ]
+MODULE_KINDS = {(8, 1): "modG", (8, 2): "modBox", (8, 3): "modH", (8, 4): "modG_", (8, 5): "modF",
+                (8, 6): "clsattr", (8, 7): "clsuattr", (8, 8): "modK", (8, 9): "modM"}
 BOX_VARS = ("o", "p")
+ATTR_NAMES = ("q0", "q1", "_q2", "c3", "_c4")      # c3, _c4: class level (values 2, 3)
+INNER_PARAM = "z"
 
 
 def _target(o: str, f: int) -> str:
     if o in BOX_VARS:
-        return f"{o}.q{f}"
+        return f"{o}.{ATTR_NAMES[f]}"
     if o == "l":
         return f"l[{f}]"
     return f'd["k{f}"]'
 
 
 def render(prog: list) -> tuple[str, dict, dict]:
-    """-> (source, line_of: path tuple -> line number, kind_of: path tuple -> statement kind)."""
+    """-> (source, line_of: path tuple -> line number, kind_of: path tuple -> statement kind).
+    Kinds of the lines of a helper / an inner function are prefixed with its name (`k.if`, `r.retb`)."""
     lines: list[str] = []
     line_of: dict[tuple, int] = {}
     kind_of: dict[tuple, str] = {}
-    for text, path in HEADER:
-        lines.append(text)
+
+    def emit(text: str, ind: int, path: tuple | None, kind: str = "") -> None:
+        lines.append("    " * ind + text)
         if path is not None:
             line_of[path] = len(lines)
-            kind_of[path] = {(8, 1): "modG", (8, 2): "modBox", (8, 3): "modH", (8, 4): "modG_", (8, 5): "modF",
-                             (9, 1): "hbin", (9, 2): "hret", (9, 3): "gif", (9, 4): "gretG", (9, 5): "gret0"}[path]
+            kind_of[path] = kind
 
-    def emit(text: str, ind: int, path: tuple, kind: str) -> None:
-        lines.append("    " * ind + text)
-        line_of[path] = len(lines)
-        kind_of[path] = kind
-
-    def block(blk: list, p: tuple, tag: int, ind: int) -> None:
+    def block(blk: list, p: tuple, tag: int, ind: int, pre: str = "") -> None:
         for i, s in enumerate(blk, start=1):
-            stmt(s, p + (tag, i), ind)
+            stmt(s, p + (tag, i), ind, pre)
 
-    def stmt(s: dict, p: tuple, ind: int) -> None:
+    def stmt(s: dict, p: tuple, ind: int, pre: str) -> None:
         t = s["t"]
         if t == "const":
-            emit(f"{s['x']} = {s['c']}", ind, p, "const")
+            emit(f"{s['x']} = {s['c']}", ind, p, pre + "const")
         elif t == "bin":
-            emit(f"{s['x']} = {s['y']} {'*' if s['op'] == 'mul' else '+'} {s['z']}", ind, p, "bin")
+            emit(f"{s['x']} = {s['y']} {'*' if s['op'] == 'mul' else '+'} {s['z']}", ind, p, pre + "bin")
+        elif t == "inc":
+            emit(f"{s['x']} = {s['y']} {'-' if s['c'] < 0 else '+'} {abs(s['c'])}", ind, p, pre + "inc")
         elif t == "copy":
             kind = "gstore" if s["x"] == "G" else "gload" if s["y"] == "G" else "alias" if s["x"] in BOX_VARS else "copy"
-            emit(f"{s['x']} = {s['y']}", ind, p, kind)
+            emit(f"{s['x']} = {s['y']}", ind, p, pre + kind)
         elif t == "call":
-            emit(f"{s['x']} = {s['fn']}({s['y']})", ind, p, "call" + s["fn"].upper())
+            emit(f"{s['x']} = {s['fn']}({s['y']})", ind, p, pre + "call" + s["fn"].upper())
+        elif t == "do":
+            emit(f"{s['fn']}({s['y']})", ind, p, pre + "do" + s["fn"].upper())
+        elif t == "defr":      # a closure that reads the local v of the enclosing function
+            emit(f"def r({INNER_PARAM}):", ind, p, pre + "defr")
+            emit(f"return {s['v']} + {INNER_PARAM}", ind + 1, p + (3, 1), "r.retb")
+        elif t == "defw":      # a closure that writes it
+            emit(f"def w({INNER_PARAM}):", ind, p, pre + "defw")
+            emit(f"nonlocal {s['v']}", ind + 1, None)
+            emit(f"{s['v']} = {INNER_PARAM} + 1", ind + 1, p + (3, 1), "w.inc")
         elif t == "new":
-            emit(f"{s['x']} = Box()", ind, p, "new")
+            emit(f"{s['x']} = Box()", ind, p, pre + "new")
         elif t == "mk":
             if s["kd"] == "list":
-                emit(f"{s['x']} = [{s['y']}, 0]", ind, p, "mklist")
+                emit(f"{s['x']} = [{s['y']}, 0]", ind, p, pre + "mklist")
             else:
-                emit(f"{s['x']} = {{\"k0\": {s['y']}}}", ind, p, "mkdict")
+                emit(f"{s['x']} = {{\"k0\": {s['y']}}}", ind, p, pre + "mkdict")
         elif t == "store":
             kind = "astore" if s["o"] in BOX_VARS else "lstore" if s["o"] == "l" else "dstore"
-            emit(f"{_target(s['o'], s['f'])} = {s['y']}", ind, p, kind)
+            emit(f"{_target(s['o'], s['f'])} = {s['y']}", ind, p, pre + kind)
         elif t == "load":
             kind = "aload" if s["o"] in BOX_VARS else "lload" if s["o"] == "l" else "dload"
-            emit(f"{s['x']} = {_target(s['o'], s['f'])}", ind, p, kind)
+            emit(f"{s['x']} = {_target(s['o'], s['f'])}", ind, p, pre + kind)
         elif t == "if":
-            emit(f"if {s['cv']}:", ind, p, "if")
-            block(s["a"], p, 1, ind + 1)
+            emit(f"if {s['cv']}:", ind, p, pre + "if")
+            block(s["a"], p, 1, ind + 1, pre)
             if s["b"]:
-                lines.append("    " * ind + "else:")
-                block(s["b"], p, 2, ind + 1)
+                emit("else:", ind, None)
+                block(s["b"], p, 2, ind + 1, pre)
         elif t == "for":
-            emit(f"for _i in range({s['k']}):", ind, p, "for")
-            block(s["a"], p, 1, ind + 1)
+            emit(f"for _i in range({s['k']}):", ind, p, pre + "for")
+            block(s["a"], p, 1, ind + 1, pre)
         elif t == "while":
-            emit(f"while {s['cv']}:", ind, p, "while")
-            block(s["a"], p, 1, ind + 1)
+            emit(f"while {s['cv']}:", ind, p, pre + "while")
+            block(s["a"], p, 1, ind + 1, pre)
         elif t == "dec":
-            emit(f"{s['x']} = {s['x']} - 1", ind, p, "dec")
+            emit(f"{s['x']} = {s['x']} - 1", ind, p, pre + "dec")
         elif t == "ret":
-            emit(f"return {s['x']}", ind, p, "ret")
+            emit(f"return {s['x']}", ind, p, pre + "ret")
+        elif t == "retb":
+            emit(f"return {s['y']} + {s['z']}", ind, p, pre + "retb")
+        elif t == "retc":
+            emit(f"return {s['c']}", ind, p, pre + "retc")
         else:
             raise ValueError(t)
 
+    def gap() -> None:
+        emit("", 0, None)
+        emit("", 0, None)
+
+    emit("G = 0", 0, (8, 1), MODULE_KINDS[8, 1])
+    gap()
+    emit("class Box:", 0, (8, 2), MODULE_KINDS[8, 2])
+    emit(f"{ATTR_NAMES[3]} = 2", 1, (8, 6), MODULE_KINDS[8, 6])
+    emit(f"{ATTR_NAMES[4]} = 3", 1, (8, 7), MODULE_KINDS[8, 7])
+    gap()
+    for name, idx, param, defpath, body in HELPERS:
+        emit(f"def {name}({param}):", 0, defpath, MODULE_KINDS[defpath])
+        block(body, (9, idx), 0, 1, name + ".")
+        gap()
+    emit("def f(a, b):", 0, (8, 5), MODULE_KINDS[8, 5])
+    emit("global G", 1, None)
     block(prog, (), 0, 1)
     return "\n".join(lines) + "\n", line_of, kind_of
 
